@@ -267,7 +267,7 @@ impl SaveDirState {
                 if path.is_empty() {
                     path = args.next().map(|s| s.as_str()).unwrap_or_default();
                 }
-                out.write_all(b"-o $OUT")?;
+                out.write_all(if is_rsp_file { b"-o $OUT" } else { b"-o \"$OUT\"" })?;
                 *original_output_file = Some(path.to_owned());
             } else if let Some(mut dir) = arg.strip_prefix("-L") {
                 if dir.is_empty() {
@@ -276,14 +276,18 @@ impl SaveDirState {
 
                 let dir = std::path::absolute(dir)?;
                 out.write_all(b"-L")?;
-                write_copied_file_arg(out, &dir)?;
+                write_copied_file_arg(out, &dir, is_rsp_file)?;
             } else {
                 // If the arg contains '=', then check to see if what's after the '=' is a filename
                 // that exists. If it does, use that.
                 let maybe_path = if let Some(eq_index) = arg.find('=') {
                     let after_equals = &arg[eq_index + 1..];
                     if Path::new(after_equals).exists() {
-                        out.write_all(&arg.as_bytes()[..=eq_index])?;
+                        if is_rsp_file {
+                            out.write_all(&arg.as_bytes()[..=eq_index])?;
+                        } else {
+                            out.write_all(shell_quote(&arg[..=eq_index]).as_bytes())?;
+                        }
                         after_equals
                     } else {
                         arg.as_str()
@@ -294,18 +298,13 @@ impl SaveDirState {
 
                 let path = std::path::absolute(maybe_path)?;
                 if self.output_path(&path).exists() {
-                    write_copied_file_arg(out, &path)?;
+                    write_copied_file_arg(out, &path, is_rsp_file)?;
                 } else if is_rsp_file {
                     // At-file content is consumed directly by the linker, not by a shell, so no
                     // shell escaping is needed.
                     out.write_all(maybe_path.as_bytes())?;
                 } else {
-                    for b in maybe_path.bytes() {
-                        if b" $\\".contains(&b) {
-                            out.write_all(b"\\")?;
-                        }
-                        out.write_all(&[b])?;
-                    }
+                    out.write_all(shell_quote(maybe_path).as_bytes())?;
                 }
             }
         }
@@ -588,10 +587,26 @@ fn write_arg_separator(out: &mut dyn Write, is_at_file: bool) -> Result {
     Ok(())
 }
 
-fn write_copied_file_arg(out: &mut dyn Write, path: &Path) -> Result {
-    out.write_all(b"$D/")?;
-    out.write_all(to_output_relative_path(path).as_os_str().as_encoded_bytes())?;
+fn write_copied_file_arg(out: &mut dyn Write, path: &Path, is_rsp_file: bool) -> Result {
+    let relative = to_output_relative_path(path);
+    if is_rsp_file {
+        out.write_all(b"$D/")?;
+        out.write_all(relative.as_os_str().as_encoded_bytes())?;
+    } else {
+        // The script is read by a shell, so the directory and the file name both need quoting.
+        out.write_all(b"\"$D\"/")?;
+        out.write_all(shell_quote(&relative.to_string_lossy()).as_bytes())?;
+    }
     Ok(())
+}
+
+/// Quotes `value` so that a POSIX shell reads it back as exactly one word with that content.
+fn shell_quote(value: &str) -> Cow<'_, str> {
+    let is_plain = |b: u8| b.is_ascii_alphanumeric() || b"_@%+=:,./-".contains(&b);
+    if !value.is_empty() && value.bytes().all(is_plain) {
+        return Cow::Borrowed(value);
+    }
+    Cow::Owned(format!("'{}'", value.replace('\'', "'\\''")))
 }
 
 /// Returns where we should copy `path` to when we put it in our output directory.
